@@ -8,6 +8,7 @@ package sim
 import (
 	"bytes"
 	"fmt"
+	"strconv"
 )
 
 type foreignBuilder struct {
@@ -217,7 +218,37 @@ func hostileStream(ch *Choices) ([]byte, string) {
 func hostileStreamN(ch *Choices) ([]byte, string, int) {
 	var b bytes.Buffer
 	f := &foreignBuilder{ch: ch, Features: map[string]int{}}
-	switch ch.Intn(15, "hostile.kind") {
+	switch ch.Intn(16, "hostile.kind") {
+	case 15:
+		// a class definition that really carries thousands of field names the Go type does not have,
+		// then thousands of short instances of it (work per instance x work per field name)
+		nf := ch.Range(100, 3000, "unkfields.n")
+		ni := ch.Range(100, 3000, "unkfields.inst")
+		withValues := ch.Intn(2, "unkfields.values") == 1
+		if withValues && nf*ni > 300_000 {
+			ni = 300_000 / nf
+		}
+		b.WriteByte(0x57)
+		b.WriteByte('C')
+		b.WriteByte(3)
+		b.WriteString("K00")
+		b.Write([]byte{'I', byte(nf >> 24), byte(nf >> 16), byte(nf >> 8), byte(nf)})
+		for i := 0; i < nf; i++ {
+			name := "u" + strconv.FormatInt(int64(i), 36)
+			b.WriteByte(byte(len(name)))
+			b.WriteString(name)
+		}
+		for i := 0; i < ni; i++ {
+			b.WriteByte(0x60)
+			if withValues {
+				// a peer that really sends a value for every field
+				for j := 0; j < nf; j++ {
+					b.WriteByte(0x90)
+				}
+			}
+		}
+		b.WriteByte('Z')
+		return b.Bytes(), fmt.Sprintf("class with %d field names unknown to the Go type, %d instances (values sent: %v)", nf, ni, withValues), 1
 	case 13:
 		// thousands of typed lists that name their type by REFERENCE to one earlier type string
 		n := ch.Range(500, 20000, "typerefs.n")
@@ -256,25 +287,42 @@ func hostileStreamN(ch *Choices) ([]byte, string, int) {
 		b.WriteByte('Z')
 		return b.Bytes(), fmt.Sprintf("map (typed=%v) holding itself as key / value", typed), 1
 	case 12:
-		// thousands of objects whose list-typed field is a back-reference to ONE earlier list
+		// thousands of objects whose list-typed field is a back-reference to ONE earlier list: a
+		// one-element list owned by the first object, or a long untyped list that stands alone as an
+		// element of the enclosing list (so its decoded type differs from the field's: every reference may
+		// cost a conversion of the whole list)
 		n := ch.Range(2000, 20000, "fanin.n")
+		m := []int{1, 1, 300, 4000}[ch.Intn(4, "fanin.listlen")]
 		b.WriteByte(0x57) // ordinal 0
+		ref := byte(0x92)
+		if m > 1 {
+			if n*m > 20_000_000 {
+				n = 20_000_000 / m
+			}
+			b.Write([]byte{0x58, 'I', byte(m >> 24), byte(m >> 16), byte(m >> 8), byte(m)}) // ordinal 1
+			for i := 0; i < m; i++ {
+				b.WriteByte(byte(0x90 + i%40))
+			}
+			ref = 0x91
+		}
 		b.WriteByte('C')
 		b.WriteByte(3)
 		b.WriteString("K09")
 		b.WriteByte(0x91)
 		b.WriteByte(1)
 		b.WriteString("l")
-		b.WriteByte(0x60) // ordinal 1
-		b.WriteByte(0x79) // its list: ordinal 2
-		b.WriteByte(0x91)
+		if m == 1 {
+			b.WriteByte(0x60) // ordinal 1
+			b.WriteByte(0x79) // its list: ordinal 2
+			b.WriteByte(0x91)
+		}
 		for i := 0; i < n; i++ {
 			b.WriteByte(0x60)
 			b.WriteByte(0x51)
-			b.WriteByte(0x92)
+			b.WriteByte(ref)
 		}
 		b.WriteByte('Z')
-		return b.Bytes(), fmt.Sprintf("%d objects whose list field is a back-reference to one list", n), 1
+		return b.Bytes(), fmt.Sprintf("%d objects whose list field is a back-reference to one list of %d elements", n, m), 1
 	case 10:
 		// a class definition that declares far more fields than it carries, then instances
 		declared := 1 << uint(ch.Range(10, 30, "clsdef.exp"))
